@@ -711,6 +711,8 @@ def correspondence(ctx):
             except Exception as ex:
                 ctx.pred_fail('compose_opd', {**cfg, 'basis': 'xy' if i % 2 else 'zernike'}, f'keystone compose raised {type(ex).__name__}: {ex}')
 
+    _floors(ctx)
+
 
 def geometry_oracle(case):
     """spider(center, rotation, rotation_is_rad) / rectangle(any angle, height=None) / offset_circle on the real code against
@@ -755,6 +757,22 @@ def geometry_oracle(case):
         w_ = np.argwhere(dec & (got != exp))
         return [f'{case["prim"]}: {len(w_)} samples on the wrong side of the analytic boundary, e.g. index {w_[0].tolist()}']
     return []
+
+
+def _floors(ctx):
+    """a run must not hollow out silently: too few executed cases is a TOOL error, not a pass"""
+    h, it = ctx.hist, ctx.items
+    nh = it.get('hex_aperture', 0)
+    opd = sum(v for k, v in h.items() if k.startswith('compose_opd:hex/'))
+    need = {'hex_mask': 2 * nh, 'keystone': 9, 'geometry_oracle': 30, 'regular_polygon': 30, 'window': 500}
+    low = {k: (it.get(k, 0), v) for k, v in need.items() if it.get(k, 0) < v}
+    if opd < 0.25 * nh:
+        low['compose_opd:hex'] = (opd, int(0.25 * nh))
+    for k in ('compose_opd:keystone/xy', 'compose_opd:keystone/zernike', 'compose_opd:hex/xy', 'compose_opd:hex/zernike'):
+        if h.get(k, 0) < 2:
+            low[k] = (h.get(k, 0), 2)
+    if low:
+        raise C.ToolError(f'C18 correspondence executed too few cases (got, floor): {low}')
 
 
 def prim_predicates(kind, case, m, x, y):
